@@ -124,7 +124,12 @@ func (h *clientConnectionHandler) onConnectionAccepted(connection *CqlServerConn
 			h.connections[clientAddr] = holder
 		}
 		holder.ch <- connection
-		h.anyConnChan <- connection
+		// never block here: the lock is held, and nobody may be calling AcceptAny to drain this channel
+		select {
+		case h.anyConnChan <- connection:
+		default:
+			log.Error().Msgf("%v: any-connection queue is full, AcceptAny will not see: %v", h, connection.conn.RemoteAddr())
+		}
 		return nil
 	}
 }
